@@ -2209,7 +2209,36 @@ def m_array_into_next(eng, st, fr, t, name, rname, args):
 
 
 
+def m_partial_ne(eng, st, fr, t, name, rname, args):
+    """`a != b` for a workspace type whose PartialEq is derived: core's provided `ne` is `!a.eq(b)`; the derived `eq` is
+    analysed in place"""
+    g = [_norm_ty(x) for x in eng.concrete_gargs(st, (t or {}).get("callee") or {})]
+    if not g:
+        return NotImplemented
+    idx = eng.__dict__.get("_derived_eq")
+    if idx is None:
+        idx = [(_norm_ty(b.impl_self or ""), b) for u in eng.program.units for b in u.bodies if b.name == "eq" and b.kind == "AssocFn" and b.j.get("mac") == ["PartialEq"] and "core::cmp::PartialEq" in (b.impl_trait or "")]
+        eng._derived_eq = idx
+    hits = [b for ty, b in idx if ty == g[0] or _ty_head(ty).split("::")[-1] == _ty_head(g[0]).split("::")[-1] and _ty_head(ty).split("::")[-1] not in ("Token",)]
+    if len(hits) != 1:
+        hits = [b for ty, b in idx if ty == g[0]]
+    if len(hits) != 1:
+        return NotImplemented
+    saved = eng.inline_fn_values
+    eng.inline_fn_values = True
+    try:
+        res = eng.call_closure(st, fr, FnV(hits[0].npath), list(args), t)
+    finally:
+        eng.inline_fn_values = saved
+    out = []
+    for s2, v in res:
+        v = eng.resolve(s2, v)
+        out.append((s2, K(not v.v) if isinstance(v, K) and isinstance(v.v, bool) else s2.fresh(("unop", "Not", snapshot(v)))))
+    return out
+
+
 DEFAULT_MODELS = {
+    "core::cmp::PartialEq::ne": m_partial_ne,
     "core::result::Result::as_ref": _as_ref("result"),
     "core::result::Result::as_mut": _as_ref("result"),
     "core::option::Option::as_ref": _as_ref("option"),
